@@ -312,3 +312,23 @@ def retain_legs(v, acc, thorough=False, timeout=1800):
     for r in recs:
         if r.get("kind") == "mismatch":
             v.fail("retain-replay", {"why": r["why"], "spec": r["spec"]})
+
+
+def tracecfg_legs(v, acc, timeout=600):
+    """Legs M and G on the tracing switches (V2Trace): the rule on the spec, then every small configuration through the real
+    TraceConfiguration -- answers equal, and asking leaves the (shared) lookup maps as they were."""
+    r = tlc_require_ok(tlc("V2TraceMC", "V2TraceMC.cfg", timeout=timeout), "V2Trace model check"); acc.add_tlc(r, "V2TraceMC.cfg")
+    gen = tlc_require_ok(tlc("V2TraceMC", "V2TraceGen.cfg", timeout=timeout), "V2Trace vector generation"); acc.add_tlc(gen, "V2TraceGen.cfg")
+    out = os.path.join(sub("out"), "tracecfg.ndjson")
+    if os.path.exists(out):
+        os.remove(out)
+    rc, txt, _ = go_overlay_test("v2", ["common/util_test.go", "v2/tracecfg_driver_test.go"], "^TestVerifTraceCfgReplay$", timeout=timeout,
+                                 env={"VERIF_IN": gen.outpath, "VERIF_OUT": out})
+    recs = read_ndjson(out)
+    summ = [r for r in recs if r.get("kind") == "summary"]
+    if vlib.build_failed(txt) or not summ or summ[0]["vectors"] == 0:
+        raise vlib.Inconclusive("trace configuration replay driver failed:\n" + txt[-2500:])
+    acc.evaluations += summ[0]["vectors"]; acc.extra["tracecfg_replay"] = summ[0]
+    for r in recs:
+        if r.get("kind") == "mismatch":
+            v.fail("tracecfg-replay", {"why": r["why"], "spec": r["spec"]})
